@@ -157,16 +157,10 @@ fn block_state_rows() {
     }
 }
 
-/// Reference fields of a tracked object. NonMoving objects get none: under the generational plans
-/// of this snapshot a NonMoving object allocated since the last full-heap GC is not remembered by
-/// the barrier (reported separately; not this property), so it must not be the only referrer of a
-/// young object.
-fn nfields_for(sem: u64, size: usize) -> usize {
-    if sem == 6 {
-        0
-    } else {
-        ((size - HDR_BYTES) / 8).min(2)
-    }
+/// Reference fields of a tracked object (NonMoving objects included: a young NonMoving object may
+/// be the only referrer of a young object).
+fn nfields_for(_sem: u64, size: usize) -> usize {
+    ((size - HDR_BYTES) / 8).min(2)
 }
 
 fn pick_tracked_size(rng: &mut Rng, cap: usize) -> usize {
